@@ -579,6 +579,14 @@ class G:
                         self.features.add("lenkey-explicit")
             name = self.nid("p")
             p = {"pk": pk_kind, "name": name, "pos": None, "bit": bit, "dop": dop, "default": None}
+            if pk_kind == "value" and dop["k"] == "simple" and dop["dct"]["t"] == "minmax" and dop["compu"]["c"] == "IDENTICAL" \
+                    and self.opts.get("minmax_const", True) and self.chance(25):
+                # a constant of MIN-MAX-LENGTH type (e.g. a fixed identification string)
+                p = {"pk": "const", "name": self.nid("cc"), "pos": None, "bit": 0, "dct": dop["dct"], "v": val}
+                self.features.add("const:minmax")
+                dynamic = True
+                dyn_params.append(p)
+                continue
             if pk_kind == "system":
                 p["sys"] = self.pick(["SECOND", "MINUTE", "HOUR", "DAY", "MONTH", "YEAR", "CENTURY", "WEEK",
                                       "VENDORSPECIFIC", "MYSYSPARAM"])
